@@ -1668,6 +1668,79 @@ func runC05Numeric(c *Ctx) {
 		})
 	}
 	c.Check(hasPF, f0.Pos(), FuncName(f0), "conversion", "strconv.ParseFloat converts the token", "the numeral is no longer converted by strconv.ParseFloat: the accepted numeral syntax is not decided here")
+	// … and the number handed back is ParseFloat's own result (negated for a leading minus): a second, hand-written
+	// conversion path would have to round exactly as ParseFloat does for every numeral
+	{
+		var fromPF func(v ssa.Value, d int, seen map[ssa.Value]bool) bool
+		fromPF = func(v ssa.Value, d int, seen map[ssa.Value]bool) bool {
+			if d > 8 {
+				return false
+			}
+			if seen[v] {
+				return true
+			}
+			seen[v] = true
+			switch x := v.(type) {
+			case *ssa.Extract:
+				if call, ok := x.Tuple.(*ssa.Call); ok && x.Index == 0 {
+					if cal := staticCallee(call); cal != nil {
+						if cal.Pkg != nil && cal.Pkg.Pkg.Path() == "strconv" && cal.Name() == "ParseFloat" {
+							return true
+						}
+						if isNewHelper(cal) && len(cal.Blocks) > 0 {
+							for _, r := range returnsOf(cal) {
+								if len(r.Results) > 0 && isFloat(r.Results[0].Type()) && !isZeroFloatConst(r.Results[0]) && !fromPF(r.Results[0], d+1, seen) {
+									return false
+								}
+							}
+							return true
+						}
+					}
+				}
+			case *ssa.UnOp:
+				if x.Op == token.SUB {
+					return fromPF(x.X, d+1, seen)
+				}
+				if x.Op == token.MUL {
+					if al, ok := x.X.(*ssa.Alloc); ok {
+						for _, r := range *al.Referrers() {
+							if st, ok := r.(*ssa.Store); ok && st.Addr == ssa.Value(al) && !isZeroFloatConst(st.Val) && !fromPF(st.Val, d+1, seen) {
+								return false
+							}
+						}
+						return true
+					}
+				}
+			case *ssa.BinOp:
+				if x.Op == token.MUL {
+					if _, isC := x.Y.(*ssa.Const); isC {
+						return fromPF(x.X, d+1, seen)
+					}
+					if _, isC := x.X.(*ssa.Const); isC {
+						return fromPF(x.Y, d+1, seen)
+					}
+				}
+			case *ssa.Phi:
+				for _, e := range x.Edges {
+					if !isZeroFloatConst(e) && !fromPF(e, d+1, seen) {
+						return false
+					}
+				}
+				return true
+			}
+			return false
+		}
+		bad := ""
+		for _, r := range returnsOf(f0) {
+			if len(r.Results) != 2 || !isNilConst(r.Results[1]) {
+				continue
+			}
+			if !fromPF(r.Results[0], 0, map[ssa.Value]bool{}) {
+				bad = c.P.Pos(r.Pos())
+			}
+		}
+		c.Check(bad == "", f0.Pos(), FuncName(f0), "value of the numeral", "every number returned is strconv.ParseFloat's result (negated for a leading minus)", "the number returned at "+bad+" does not come from strconv.ParseFloat on every path: a hand-written conversion (mantissa / power of ten) is only correctly rounded for short numerals, so full-precision ordinates come back one unit in the last place off")
+	}
 	for _, f := range fs {
 		fn := FuncName(f)
 		for _, b := range f.Blocks {
@@ -1731,6 +1804,37 @@ func runC06Foreign(c *Ctx) {
 		return
 	}
 	fn := FuncName(f)
+	// the scan over the object's members runs for every object: no test of how many members it has stands in front of it
+	for _, g := range withNewHelpers(f) {
+		eachInstr(g, func(in ssa.Instruction) {
+			rg, ok := in.(*ssa.Range)
+			if !ok {
+				return
+			}
+			if _, isMap := rg.X.Type().Underlying().(*types.Map); !isMap {
+				return
+			}
+			for _, gd := range guardsAt(rg) {
+				bo, ok := gd.Cond.(*ssa.BinOp)
+				if !ok {
+					continue
+				}
+				for _, pr := range [][2]ssa.Value{{bo.X, bo.Y}, {bo.Y, bo.X}} {
+					lc, ok := stripConv(pr[0]).(*ssa.Call)
+					if !ok {
+						continue
+					}
+					b, isB := lc.Call.Value.(*ssa.Builtin)
+					if !isB || b.Name() != "len" || !(lc.Call.Args[0] == rg.X || sameValue(lc.Call.Args[0], rg.X)) {
+						continue
+					}
+					if k, isC := constInt(stripConv(pr[1])); isC && k >= 1 {
+						c.Bad(rg.Pos(), FuncName(g), "scan of the object's members", fmt.Sprintf("the loop over the members of the object runs only under a test of the number of members (against %d): which members are present, not how many, decides whether one of them is foreign — an object without the optional members loses its foreign ones", k))
+					}
+				}
+			}
+		})
+	}
 	looked := map[string]bool{}
 	skipped := map[string]bool{}
 	var keyVals []ssa.Value
@@ -4837,4 +4941,13 @@ func wrapperDeepEquiv(c *Ctx, f *ssa.Function, typeName, method string) (bool, s
 		}
 	}
 	return true, fmt.Sprintf("%d models", models)
+}
+
+func isZeroFloatConst(v ssa.Value) bool {
+	cst, ok := v.(*ssa.Const)
+	if !ok || cst.Value == nil {
+		return false
+	}
+	f, ok := constantFloat(cst)
+	return ok && f == 0
 }
